@@ -26,7 +26,8 @@ def _cfg(tier):
                 dus = DIST_UNITS if tier == 'thorough' and plane == 'SFP' else [DIST_UNITS[i % len(DIST_UNITS)]]
                 for du in dus:
                     out.append({'plane': plane, 'cunit': cu, 'bare': bare, 'sfunit': du,
-                                'tdunit': DIST_UNITS[(i + 3) % len(DIST_UNITS)], 'td_bare': bool(i % 2)})
+                                'tdunit': DIST_UNITS[(i + 3) % len(DIST_UNITS)], 'td_bare': bool(i % 2),
+                                'adjunit': (LINEAR_ANG + TAN_ANG)[(i * 2 + 1) % 9]})
                 i += 1
     return out
 
@@ -43,7 +44,7 @@ def _inch(v, unit):
          assumptions=['floats modelled as reals; click-count tolerance 1e-9 relative (tangent-based click units: 1e-6, small-angle)',
                       'effective SFP click below one turn (Angular.to_raw wraps above 2*pi)'],
          stubs=['atan/tan summarised with enclosures x - x^3/3 <= atan x <= x and x <= tan x <= x + x^3/2 (0 <= x <= 0.5)'])
-def c19_clicks(ctx, plane, cunit, bare, sfunit, tdunit, td_bare):
+def c19_clicks(ctx, plane, cunit, bare, sfunit, tdunit, td_bare, adjunit='Radian'):
     p = pybc()
     U = p.Unit
     cu = getattr(U, cunit)
@@ -73,7 +74,9 @@ def c19_clicks(ctx, plane, cunit, bare, sfunit, tdunit, td_bare):
             k = 1 / mag
         else:
             k = 1
-        got = s.get_adjustment(tdq, U.Radian(drop), U.Radian(wind), mag)
+        # the corrections are given as quantities displayed in another angular unit (same angle: re-displayed radians)
+        AU = getattr(U, adjunit)
+        got = s.get_adjustment(tdq, U.Radian(drop) << AU, U.Radian(wind) << AU, mag)
     tol = 1e-6 if kind == 'tan' else 1e-9
     ctx.check_eq('nominal_click_is_given', s.v_click_size.raw_value, rad_v, rel=1e-9)
     want_v = drop / (rad_v * k)
